@@ -53,6 +53,7 @@ def run(ctx, progs):
     ctx.explanation = EXPLANATION
     ctx.rule("ACC1", "helper preconditions (table, cross-checked against the helpers' debug_assert!s) discharged at every call")
     ctx.rule("ACC2", "assume_init_* operands: ACC1 helper result, or items[add_mod(start,i,N)] with i<size")
+    ctx.rule("ACC2b", "a physical slot position add_mod(start, i, N) used to index/offset/swap storage needs i < size (outside the view functions)")
     ctx.rule("INV1", "stores to size/start: reviewed writers and value shapes")
     ctx.rule("MOD1", "REQUIRES(N>0) never reaches a public entry")
     ctx.rule("FREE1", "slices_uninit_mut results flow only into initialising callees")
@@ -67,6 +68,7 @@ def run(ctx, progs):
         shared.report_requires(ctx, eng, "ACC1", cfg)
         ctx.floor("ACC1", "helper call sites", eng.sites, 20, cfg)
         acc2(ctx, prog, cfg)
+        acc2b(ctx, prog, cfg)
         inv1(ctx, prog, cfg)
         m = shared.run_mod1(prog)
         shared.report_requires(ctx, m, "MOD1", cfg)
@@ -437,3 +439,60 @@ def acc1_beliefs(ctx, prog, cfg):
                       "the ACC1 table requires `%s` for `%s` but the helper's own debug_assert!s do not state it: table "
                       "and code have drifted apart" % (why, short),
                       "debug_assert!s of the helper entail the tabled precondition", cfg)
+
+
+# functions that compute *range ends* (i may equal size) or work on a drain's saved size
+POSITION_RANGE_FNS = {
+    "CircularBuffer::as_slices", "CircularBuffer::as_mut_slices", "CircularBuffer::make_contiguous", "CircularBuffer::slices_uninit_mut",
+    "CircularBuffer::drop_range", "CircularBuffer::truncate_front", "Drain::as_slices", "Drain::as_mut_slices", "Drain::read",
+    "<Drain<N, T> as Drop>::drop", "CircularSlicePtr::add",
+}
+
+
+def _slot_pos(e):
+    """(i) if e is add_mod(<start>, i, N) — the physical position of logical index i"""
+    e = mir.strip_casts(e)
+    if isinstance(e, tuple) and e[0] == "call" and e[1] == "add_mod" and len(e[2]) == 3:
+        s, i, m = e[2]
+        if mir.is_load_of(s, "start") is not None and mir.strip_casts(m)[0] == "cparam":
+            return mir.is_load_of(s, "start"), i
+    return None
+
+
+def acc2b(ctx, prog, cfg):
+    n = 0
+    for f in prog.fns.values():
+        if f.short in POSITION_RANGE_FNS or f.short in ("add_mod", "sub_mod"):
+            continue
+        G = guards.Guards(f)
+        declared = [a for (a, _, _) in shared.ACC1_TABLE.get(f.short, [])]
+        sites = []
+        for b in sorted(f.reachable(False)):
+            t = f.term(b)
+            nst = len(f.blocks[b]["stmts"])
+            if t["k"] == "assert" and t.get("msg") == "BoundsCheck" and t["len"].get("param"):
+                sites.append((b, f.deep_simplify(f.operand_expr(t["index"], b, nst)), "element index"))
+            elif t["k"] == "call" and not mir.is_local_callee(t):
+                for a in f.call_args(b):
+                    a = f.deep_simplify(a)
+                    if _slot_pos(a) is not None:
+                        sites.append((b, a, "argument of %s" % mir.callee_short(t)))
+        for (b, e, what) in sites:
+            sp = _slot_pos(e)
+            if sp is None:
+                # front slot: items[start] itself is position of index 0
+                if mir.is_load_of(mir.strip_casts(e), "start") is not None:
+                    base, i = mir.is_load_of(mir.strip_casts(e), "start"), guards.ZERO
+                else:
+                    continue
+            else:
+                base, i = sp
+            n += 1
+            nst = len(f.blocks[b]["stmts"])
+            size = ("load", base, ("size",), f.version_at(b, nst, ("M", "size")))
+            Z = G.closure(b, extra_terms=[i, size], extra_atoms=declared)
+            ctx.check(Z.lt(i, size), "ACC2b", f.short, "slot position of `%s` (%s)" % (mir.fmt(i, f)[:40], what), short_loc(f, b),
+                      "storage is indexed/offset/swapped at the physical position of logical index `%s` without the fact that this "
+                      "index is below `size`: an unoccupied slot can be read, exchanged or moved into the sequence" % mir.fmt(i, f),
+                      "facts entail %s < size" % mir.fmt(i, f), cfg)
+    ctx.floor("ACC2b", "slot positions used as element index / pointer offset", n, 8, cfg)
